@@ -23,6 +23,7 @@ const (
 type object struct {
 	name  uint64
 	state uint64 // hash of the modelled state (or id of the last writing event)
+	owner *thread
 }
 
 type thread struct {
@@ -431,9 +432,35 @@ func Op(what string, key any, enabled func() bool, effect func(o *object, ev uin
 	if s.aborted {
 		runtime.Goexit() // teardown: cut the (deferred) code short
 	}
+	o := s.obj(key)
+	if LocalElision && !sharedNames[o.name] && len(s.threads) > 1 {
+		// An object that only one thread ever touches (after the single-threaded prologue) needs no
+		// scheduling point: its operations commute with everything other threads do. The first touch by
+		// a second thread marks the object's canonical name as shared for all later executions and asks
+		// the explorer to restart (explore.go iterates to a fixpoint).
+		if o.owner == nil {
+			o.owner = s.cur
+		}
+		if o.owner != s.cur {
+			sharedNames[o.name] = true
+			NewShared = true
+		} else if enabled == nil || enabled() {
+			t := s.cur
+			before := mix(o.name, o.state)
+			seen, ro := effect(o, t.eventID())
+			s.objSum ^= before ^ mix(o.name, o.state)
+			if ro {
+				t.ro++
+			} else {
+				t.ro = 0
+			}
+			t.observe(what, o, seen)
+			Elided++
+			return
+		}
+	}
 	point(what, enabled, false)
 	t := s.cur
-	o := s.obj(key)
 	before := mix(o.name, o.state)
 	seen, ro := effect(o, t.eventID())
 	s.objSum ^= before ^ mix(o.name, o.state)
@@ -446,6 +473,20 @@ func Op(what string, key any, enabled func() bool, effect func(o *object, ev uin
 }
 
 var freeMu sync.Mutex
+
+// Thread-local object elision (see Op). sharedNames persists across the executions of one process.
+var (
+	LocalElision bool
+	NewShared    bool
+	Elided       int64
+	sharedNames  = map[uint64]bool{}
+)
+
+// ResetShared forgets what was learnt about shared objects (new scenario).
+func ResetShared() { sharedNames = map[uint64]bool{}; NewShared = false }
+
+// SharedCount is the number of object names known to be touched by more than one thread.
+func SharedCount() int { return len(sharedNames) }
 
 // OpObj is Op for shim packages: the effect sees the object's modelled state word.
 func OpObj(what string, key any, enabled func() bool, effect func(state *uint64, ev uint64) (seen uint64, readOnly bool)) {
